@@ -13,5 +13,5 @@ CONSTANTS
   ReleaseNoClear = FALSE
   MoveAssignInPlaceBug = TRUE
 VIEW IView
-INVARIANTS ParentConsistent RootsHaveNoParent NoDangling NoLeak Refines ReturnsAgree ITypeOK TypeOK
+INVARIANTS NoDangling
 CHECK_DEADLOCK FALSE
